@@ -342,6 +342,7 @@ def run(res: Results, idx: Index, tier: str) -> None:
     rule_f(res, idx)
     rule_g(res, idx)
     rule_h(res, idx)
+    rule_i(res, idx)
     res.rule("R-C03e", "slices and offset+index accesses into a node's result tuple / a body graph's interface list coincide with the sections the list was assembled from", floor=15)
     rule_e(res, idx)
     res.rule("R-C03a", "value names are fresh / existing / derived / interface; a literal name must be single-shot per scope", floor=1500)
@@ -639,3 +640,44 @@ def rule_h(res: Results, idx: Index) -> None:
         res.ok("R-C03h", f"{PSF}:{fixes[0].lineno}", key, f"outputs in `{out_name}` that are function inputs ({sorted(in_names)}) are replaced by an Identity of them before fscope.end()", f.qualname)
     else:
         res.violation("R-C03h", f"{PSF}:{ends[0].lineno}", key, f"`{src(ends[0], 50)}` seals the function with the body's output values as they are: when the callee returns an argument unchanged the function output is the function input itself (no node in the body), which ONNX Runtime rejects at load time", f.qualname)
+
+
+# ---------------------------------------------------------------------------------------------- R-C03i
+def rule_i(res: Results, idx: Index) -> None:
+    """R-C03h holds when the function is built; the optimizer then runs its folds on every function body with
+    `replace_graph_outputs=True` (required by C02 R-C02a).  An inverse Reshape / Transpose / Cast pair that spans a whole body
+    leaves the function with output == input (or one value at two output positions), which ONNX Runtime refuses to load.  In
+    `optimize_graph`, the loop over the function bodies has to end — for every function — in a step that walks the body's
+    outputs, tests them against its inputs / earlier outputs and routes the offenders through an Identity node."""
+    res.rule("R-C03i", "after the optimizer has run on a function body, outputs that are inputs (or repeated) are given a producing node", floor=1)
+    OPTF = "jax2onnx/converter/ir_optimizations.py"
+    f = idx.find_func(OPTF, "optimize_graph")
+    if f is None:
+        raise AnalysisError("optimize_graph not found")
+    key = f"{OPTF}::optimize_graph::function-outputs-have-producers"
+    loops = [lp for lp in walk_no_nested(f.node) if isinstance(lp, ast.For) and "function" in src(lp.iter, 80).lower()]
+    if not loops:
+        res.unresolved("R-C03i", f.site, key, "the loop over the function bodies was not found", f.qualname)
+        return
+    lp = loops[0]
+    mod = idx.module(OPTF)
+    ok = None
+    for st in lp.body:                       # statements of the loop body itself: executed for every function
+        for c in ast.walk(st) if not isinstance(st, (ast.For, ast.While)) else []:
+            if not isinstance(c, ast.Call):
+                continue
+            g = idx.resolve_func(mod, call_name(c) or "", scope=f)
+            if g is None:
+                continue
+            txt_nodes = list(ast.walk(g.node))
+            reads_outputs = any(isinstance(x, ast.Attribute) and x.attr == "outputs" for x in txt_nodes)
+            reads_inputs = any(isinstance(x, ast.Attribute) and x.attr == "inputs" for x in txt_nodes)
+            makes_identity = any(isinstance(x, ast.Constant) and x.value == "Identity" for x in txt_nodes) or any(isinstance(x, ast.Attribute) and x.attr == "Identity" for x in txt_nodes)
+            writes_output = any(isinstance(x, ast.Assign) and any(isinstance(t, ast.Subscript) and isinstance(t.value, ast.Attribute) and t.value.attr == "outputs" for t in x.targets) for x in txt_nodes)
+            if reads_outputs and reads_inputs and makes_identity and writes_output:
+                ok = (c, g)
+    if ok is not None:
+        res.ok("R-C03i", f"{OPTF}:{ok[0].lineno}", key, f"{ok[1].name}() runs for every function body after its passes: outputs that are inputs / repeated get an Identity", f.qualname)
+    else:
+        res.violation("R-C03i", f"{OPTF}:{lp.lineno}", key, "the folds re-route function outputs (`replace_graph_outputs=True`) and nothing afterwards gives an output that has become a function input a producing node: "
+                      "`x.reshape(1, 3).reshape(3)` as a whole @onnx_function body leaves a function without nodes whose output is its input — ONNX Runtime refuses to load the model", f.qualname)
